@@ -427,7 +427,7 @@ func c52(sum *lib.Summary) {
 	}
 	for i, gp := range swapGrid() {
 		sum.Count("grid")
-		runBoth(fmt.Sprintf("grid:swap-assign:%d", i), gp.Src(), gp.Coq(), false, nil)
+		runBoth(fmt.Sprintf("grid:%d: %s", i, strings.TrimSpace(gp.Fns[1].Body[7].Src(""))), gp.Src(), gp.Coq(), false, nil)
 	}
 	for i := 0; i < nprog; i++ {
 		if i%40 == 39 {
